@@ -523,3 +523,150 @@ def pubid(ctx):
         ok = vs == {"AtLeastOnce", "ExactlyOnce"}
         out.append(Inst("PUBID", "packet-identifier-iff-qos>0", ok, b.site(i), "packet identifier decoded under tests of qos against %s" % sorted(vs), "QoS 1 and QoS 2 only"))
     return out
+
+
+SHORT_SETS = {
+    # decoder -> element -> set of remaining lengths for which the element is legitimately absent
+    "AckRx": {"reason": {2}, "property_len": {2, 3}},
+    "DisconnectRx": {"reason": {0}, "property_len": {0, 1}},
+    "AuthRx": {"reason": {0}, "property_len": {0}},
+}
+WIDTHS = {"u8": 1, "bool": 1, "u16": 2, "core::base_types::NonZero<u16>": 2, "u32": 4}
+
+
+def _width_of(ty):
+    if ty in WIDTHS:
+        return WIDTHS[ty]
+    if ty.endswith("Reason") or ty == "ReasonT":
+        return 1
+    return None
+
+
+@rule("SHORTFORM-EXACT", floor=6)
+def shortform_exact(ctx):
+    """The reason code / property length of PUBACK-family, DISCONNECT and AUTH packets is treated as
+    absent for exactly the remaining lengths the standard allows (PUBACK family: reason absent iff
+    remaining length 2, property length absent iff 2 or 3; DISCONNECT: 0 / 0-1; AUTH: 0)."""
+    out = []
+    decs = rx_decoders(ctx)
+    for nm, table in sorted(SHORT_SETS.items()):
+        adt, body = decs[nm]
+        succ = [i for i, t in body.calls(r"Builder::build$") if t["dest"]["l"] == 0]
+        for i in sorted(body.reach):
+            for st in body.blocks[i]["stmts"]:
+                if st["k"] == "assign" and st["lhs"]["l"] == 0 and not st["lhs"]["p"] and st["rv"]["k"] == "agg" and st["rv"].get("variant") == "Ok":
+                    succ.append(i)
+        tdc = [(i, t, (t["callee"].get("args") or ["?"])[-1]) for i, t in body.calls(r"core::utils::Decoder::try_decode$")]
+        vsi = sorted([(i, t) for i, t, ty in tdc if ty.endswith("VarSizeInt")], key=lambda x: len(body.dominators(x[0])))
+        if not vsi:
+            raise AnchorLost("remaining-length decode in %s" % nm)
+        rem_bb, rem_t = vsi[0]
+        rem_local = rem_t["dest"]["l"]
+        rem_ids = _ids_from(body, rem_bb)
+        elem_calls = {"reason": [(i, t) for i, t, ty in tdc if re.search(r"Reason(T)?$", ty)], "property_len": vsi[1:2]}
+        for what, want in sorted(table.items()):
+            calls = elem_calls[what]
+            if not calls:
+                continue
+            ci = calls[0][0]
+            skips = [s_ for s_ in succ if not body.dominates(ci, s_)]
+            got = set()
+            descr = []
+            for s_ in skips:
+                lo, hi = 0, 10 ** 9
+                # bytes of the variable part already decoded on the way to this exit
+                consumed = 0
+                for i, t, ty in tdc:
+                    if i != rem_bb and body.dominates(rem_bb, i) and body.dominates(i, s_):
+                        w = _width_of(ty)
+                        if w:
+                            consumed += w
+                lo = max(lo, consumed)
+                for (d, e) in dominating_edges(body, s_):
+                    if not body.dominates(rem_bb, d):
+                        continue
+                    c = Cond(body, d)
+                    rng = _rem_constraint(body, c, e, rem_ids, tdc, rem_bb, d)
+                    if rng:
+                        lo, hi = max(lo, rng[0]), min(hi, rng[1])
+                vals = set(range(lo, min(hi, 64) + 1)) if hi >= lo else set()
+                if hi > 64:
+                    vals.add("...")
+                got |= vals
+                descr.append("%s: remaining length in [%d, %s]" % (body.site(s_), lo, hi if hi < 10 ** 9 else "inf"))
+            out.append(Inst("SHORTFORM-EXACT", "%s:%s" % (nm, what), got == want, body.site(ci),
+                            "%s is treated as absent for remaining length %s (%s)" % (what, sorted(got, key=str), "; ".join(descr) or "never"),
+                            "absent exactly for remaining length %s" % sorted(want)))
+    return out
+
+
+def _ids_from(body, call_bb):
+    """Locals holding the value produced by the call at call_bb (through `?` and moves)."""
+    t = body.term(call_bb)
+    ids = {t["dest"]["l"]}
+    changed = True
+    while changed:
+        changed = False
+        for l, ds in body.defs.items():
+            if l in ids:
+                continue
+            for d in ds:
+                src = None
+                if d[0] == "stmt" and d[3]["rv"]["k"] in ("use", "ref", "cast"):
+                    o = d[3]["rv"].get("op") or {"pl": d[3]["rv"].get("pl")}
+                    if o.get("k") != "const" and o.get("pl"):
+                        src = o["pl"]["l"]
+                elif d[0] == "call" and re.search(r"(Try::branch|VarSizeInt::value|From::from|Into::into|Clone::clone)$", callee_name(d[2]) or "") and d[2]["ops"] and d[2]["ops"][0].get("k") != "const":
+                    src = d[2]["ops"][0]["pl"]["l"]
+                if src in ids:
+                    ids.add(l)
+                    changed = True
+    return ids
+
+
+def _rem_constraint(body, c, succ, rem_ids, tdc, rem_bb, cond_bb):
+    """Interval of the remaining length implied by taking edge cond->succ, or None."""
+    def is_rem(o):
+        return o.get("k") != "const" and (o["pl"]["l"] in rem_ids or body.base_local(o) in rem_ids)
+
+    def is_remaining_call(o):
+        if o.get("k") == "const":
+            return False
+        og = body.origin(o, through_calls=False)
+        return og[0] == "call" and (callee_name(og[2]) or "").endswith("Decoder::remaining")
+    truth = c.holds_on(succ)
+    if truth is None:
+        return None
+    op = None
+    k = None
+    offset = 0
+    if c.kind == "cmp":
+        for x, y, o in ((c.a, c.b, c.op), (c.b, c.a, {"Lt": "Gt", "Gt": "Lt", "Le": "Ge", "Ge": "Le", "Eq": "Eq", "Ne": "Ne"}[c.op])):
+            kk = body.fold(y)
+            if kk is None:
+                continue
+            if is_rem(x):
+                op, k = o, kk
+            elif is_remaining_call(x):
+                op, k = o, kk
+                # decoder.remaining() == k  <=>  remaining_len == k + bytes of the variable part consumed so far
+                for i, t, ty in tdc:
+                    if i != rem_bb and body.dominates(rem_bb, i) and body.dominates(i, cond_bb):
+                        offset += _width_of(ty) or 0
+    elif c.kind == "call" and c.callee == "eq" and len(c.args) == 2:
+        for x, y in ((c.args[0], c.args[1]), (c.args[1], c.args[0])):
+            kk = body.fold(y)
+            if kk is None:
+                o2 = body.origin(y, through_calls=False)
+                if o2[0] == "const":
+                    kk = body.fold(o2[1])
+                elif o2[0] == "place":
+                    kk = None
+            if kk is not None and is_rem(x):
+                op, k = ("Ne" if c.neg else "Eq"), kk
+    if op is None:
+        return None
+    k = k + offset
+    if not truth:
+        op = {"Lt": "Ge", "Ge": "Lt", "Gt": "Le", "Le": "Gt", "Eq": "Ne", "Ne": "Eq"}[op]
+    return {"Eq": (k, k), "Lt": (0, k - 1), "Le": (0, k), "Gt": (k + 1, 10 ** 9), "Ge": (k, 10 ** 9)}.get(op)
